@@ -92,6 +92,8 @@ class Item:
 def wfmt(w):
     if w is None:
         return '-'
+    if not isinstance(w, tuple) or not w:
+        return str(w)
     return {'w': 'w', 'fresh_world': 'w*', 'each_visible': "w'"}.get(w[0], str(w))
 
 
@@ -121,9 +123,8 @@ class Schema:
 GUARD_PATTERNS = {
     r'not self\[NodeCount\]\.isleast\(\w+, branch\)( and .+)?': 'fairness: a node applied more often than another is postponed; that the postponement ends (no starvation) '
                                                                     'is decided by helpersfold.fold_fair_gate (C02.R8), whatever further condition narrows the gate',
-    r'\(\w+, \w+\) in self\[NodesWorlds\]\[branch\]': 'redundancy: this (node, world) instance was already applied',
+    # `(node, w) in self[NodesWorlds][branch]` and `self[WorldIndex].has(branch, pair)` are validated structurally (Eval.has_guard)
     # `branch.has(<expr>)` is handled structurally (Eval.has_guard): <expr> is evaluated and must be a node the rule goes on to add
-    r'self\[WorldIndex\]\.has\(branch, \w+\)': 'redundancy: the access pair is already on the branch',
     r'not self\._should_apply\(branch\)': 'serial rule: world limit (termination); what must still be offered is checked by helpersfold.fold_serial_rule',
     r'not branch\.has\(\{Node\.Key\.world: \w+\}\)': 'serial rule: a world without sentence nodes needs no successor (termination); fold_serial_rule '
                                                             'checks that every unserial world carrying sentences is offered',
@@ -234,16 +235,26 @@ class Extractor:
             fn = ev.yield_fns[0]        # report at the function that actually produces the nodes
         sch = Schema(rule=rc, attrs=attrs, entry=nm, fn=fn, subject=S, branches=branches, kw=kw,
                      guards=ev.guards, family=family, ticking=bool(ticking))
-        for val, nbefore, text in ev.has_guards:
-            later = []
+        for kind_, val, nbefore, text in ev.has_guards:
+            later, kws = [], []
             for y in ev.yields[nbefore:]:
                 if isinstance(y, dict) and 'groups' in y:
                     later += [it_ for g_ in y['groups'] for it_ in g_]
+                    kws.append(y.get('kw', {}))
                 elif isinstance(y, Item):
                     later.append(y)
-            if not any(val == it_ for it_ in later):
-                sch.problems.append(f'{text}|the expansion is skipped when `{text}` holds, but {val!r} is not a node the rule goes on to add ({later!r}): '
-                                    f'not a redundancy guard -- the node is then never expanded on that branch')
+            if kind_ == 'node':
+                same = lambda a, b: a is b or (isinstance(a, Item) and isinstance(b, Item) and a.key() == b.key())
+                if not any(same(val, it_) for it_ in later):
+                    sch.problems.append(f'{text}|the expansion is skipped when `{text}` holds, but {val!r} is not a node the rule goes on to add ({later!r}): '
+                                        f'not a redundancy guard -- the node is then never expanded on that branch')
+            else:
+                n_, w_ = val
+                isnode = n_ == NODE or (isinstance(n_, tuple) and n_ and n_[0] == NODE)
+                okw = any(k_.get('world') == w_ for k_ in kws) and any(getattr(it_, 'w', None) == w_ for it_ in later if it_.kind == 'sent')
+                if not (isnode and okw):
+                    sch.problems.append(f'{text}|the expansion is skipped when `{text}` holds, but ({n_!r}, {w_!r}) is not (the rule\'s node, the world the target is for) '
+                                        f'-- targets carry world={[k_.get("world") for k_ in kws]!r}, added {later!r}: not the record of this instance having been applied')
         for b in branches:
             for it in b:
                 if it.kind == 'sent':
@@ -398,17 +409,36 @@ class Eval:
             raise self.unsupported(f'statement {ast.unparse(st)[:60]}')
 
     def has_guard(self, test, env, text):
-        "`branch.has(<expr>)` as a skip condition: a redundancy guard only if <expr> is a node the rule adds afterwards (checked in extract)"
-        if not (isinstance(test, ast.Call) and isinstance(test.func, ast.Attribute) and test.func.attr == 'has' and isinstance(test.func.value, ast.Name)
-                and test.func.value.id == 'branch' and len(test.args) == 1 and not test.keywords):
-            return False
-        try:
-            v = self.ev(test.args[0], env)
-        except Unsupported:
-            return False
-        self.has_guards.append((v, len(self.yields), text))
-        self.guards.append(text)
-        return True
+        """Redundancy guards, validated instead of matched by shape (the values are checked against what the rule goes on to
+        yield, in extract):  `branch.has(x)` -- x is a node the rule adds;  `self[WorldIndex].has(branch, p)` -- p's access node
+        is one the rule adds;  `(n, w) in self[NodesWorlds][branch]` -- n is the rule's node and w the world the target is for."""
+        if isinstance(test, ast.Call) and isinstance(test.func, ast.Attribute) and test.func.attr == 'has' and not test.keywords:
+            recv = ast.unparse(test.func.value)
+            try:
+                if recv == 'branch' and len(test.args) == 1:
+                    v = self.ev(test.args[0], env)
+                    self.has_guards.append(('node', v, len(self.yields), text))
+                elif recv == 'self[WorldIndex]' and len(test.args) == 2 and ast.unparse(test.args[0]) == 'branch':
+                    v = self.ev(test.args[1], env)
+                    if not (isinstance(v, tuple) and v and v[0] == 'pair'):
+                        return False
+                    self.has_guards.append(('node', Item('access', w1=v[1], w2=v[2]), len(self.yields), text))
+                else:
+                    return False
+            except Unsupported:
+                return False
+            self.guards.append(text)
+            return True
+        if isinstance(test, ast.Compare) and len(test.ops) == 1 and isinstance(test.ops[0], ast.In) and isinstance(test.left, ast.Tuple) and len(test.left.elts) == 2 \
+                and ast.unparse(test.comparators[0]) == 'self[NodesWorlds][branch]':
+            try:
+                n_, w_ = (self.ev(x, env) for x in test.left.elts)
+            except Unsupported:
+                return False
+            self.has_guards.append(('nodeworld', (n_, w_), len(self.yields), text))
+            self.guards.append(text)
+            return True
+        return False
 
     def bind(self, t, v, env):
         if isinstance(t, ast.Name):
